@@ -412,8 +412,9 @@ impl World {
             for (proto, bytes) in self.honest_replies(&msg) {
                 self.deliver(proto, peer, bytes);
             }
-            if n > 200_000 {
-                break;
+            if n > 30_000 {
+                // a request/response ping-pong that never ends: surfaced as a failure of the running case
+                panic!("pump livelock: more than 30000 messages exchanged without quiescence (last request on protocol {:?} to peer {})", msg.0, peer);
             }
         }
         n
